@@ -76,6 +76,10 @@ type scope struct {
 	gm sync.RWMutex
 	tm sync.RWMutex
 	hm sync.RWMutex
+	// rm serializes the reports of this scope: the report loop and the report
+	// of a closed scope that is requested again may otherwise deliver a gauge
+	// in the wrong order and leave the reporter with a stale value.
+	rm sync.Mutex
 
 	counters        map[string]*counter
 	countersSlice   []*counter
@@ -205,6 +209,9 @@ func newRootScope(opts ScopeOptions, interval time.Duration) *scope {
 
 // report dumps all aggregated stats into the reporter. Should be called automatically by the root scope periodically.
 func (s *scope) report(r StatsReporter) {
+	s.rm.Lock()
+	defer s.rm.Unlock()
+
 	s.cm.RLock()
 	for name, counter := range s.counters {
 		counter.report(s.fullyQualifiedName(name), s.tags, r)
@@ -227,6 +234,9 @@ func (s *scope) report(r StatsReporter) {
 }
 
 func (s *scope) cachedReport() {
+	s.rm.Lock()
+	defer s.rm.Unlock()
+
 	s.cm.RLock()
 	for _, counter := range s.countersSlice {
 		counter.cachedReport()
